@@ -1,31 +1,1 @@
-/-
-  C04 (apply_patch level) — every hunk is applied or saved as a reject; placing a hunk is never fatal.
--/
-import PatchModel.Spec.Script
-namespace PatchModel.C04
-open PatchModel
-
-/-- for well-formed hunks `apply_patch` always returns (no `std::out_of_range` from `lines.at`, no "Corrupt patch"
-    from the reject formatter), whatever the line numbers, unless it has to ask and there is no tty -/
-theorem apply_total (file : List Line) (p0 : Patch) (o : ApplyOpts) (tty : Option (List Bool))
-    (hwf : ∀ h ∈ p0.hunks, h.WF) (hD : o.define = [])
-    (hnoprompt : o.ignoreReversed = true ∨ o.batch = true ∨ o.force = true ∨ tty ≠ none) :
-    ∃ r, applyPatch file p0 o tty = .ok r := by
-  sorry
-
-/-- each hunk index is either applied or rejected, exactly once; the failure count is the number of rejects -/
-theorem apply_partition (file : List Line) (p0 : Patch) (o : ApplyOpts) (tty : Option (List Bool)) (r : ApplyResult)
-    (hr : applyPatch file p0 o tty = .ok r) :
-    (r.applied.map (·.1) ++ r.rejected.map (·.1)).Perm (List.range p0.hunks.length) ∧
-      r.failed = r.rejected.length ∧ r.patch.hunks.length = p0.hunks.length := by
-  sorry
-
-/-- a rejected hunk is the hunk of that index with both start lines shifted by the same amount, body untouched -/
-theorem rejected_are_shifted (file : List Line) (p0 : Patch) (o : ApplyOpts) (tty : Option (List Bool)) (r : ApplyResult)
-    (hr : applyPatch file p0 o tty = .ok r) :
-    ∀ ih ∈ r.rejected, ∃ h d, r.patch.hunks[ih.1]? = some h ∧ ih.2.lines = h.lines ∧
-      ih.2.old.count = h.old.count ∧ ih.2.new.count = h.new.count ∧
-      ih.2.old.start = h.old.start + d ∧ ih.2.new.start = h.new.start + d := by
-  sorry
-
-end PatchModel.C04
+import PatchModel.Props.C04
